@@ -84,3 +84,33 @@ End Checkers.
 
 Definition exLvls := std_levels exJac exH.
 Definition exLvls' := std_levels exJac exH'.
+
+(* scratch well-formedness as a boolean on the level sizes *)
+Section ScrCheck.
+Context {S : Scalar}.
+Fixpoint scr_okb (sizes : list nat) (scr : list (@scratch S)) : bool :=
+  match sizes, scr with
+  | [], [] => true
+  | n :: ns, s :: ss =>
+    Nat.eqb (length (sf s)) n && Nat.eqb (length (su s)) n && Nat.eqb (length (st s)) n && scr_okb ns ss
+  | _, _ => false
+  end.
+
+Lemma scr_okb_ok (lvls : list (@level S)) : forall scr,
+  scr_okb (map (fun l => nrows (lA l)) lvls) scr = true -> scratch_wf lvls scr.
+Proof.
+  induction lvls as [|l ls IH]; intros [|s ss] H; simpl in *; try discriminate; [exact I|].
+  apply andb_prop in H as [H H4]. apply andb_prop in H as [H H3]. apply andb_prop in H as [H1 H2].
+  apply Nat.eqb_eq in H1, H2, H3. split; [unfold scr_ok; auto|apply IH, H4].
+Qed.
+
+Lemma std_levels_sizes (k : @relax_kind S) (ls : list (@ldesc S)) :
+  map (fun l => nrows (lA l)) (std_levels k ls) = map (fun l => nrows (ld_A l)) ls.
+Proof.
+  unfold std_levels. rewrite map_map. apply map_ext. intro l. rewrite inst_lA. reflexivity.
+Qed.
+
+Lemma std_scratch_check (k : @relax_kind S) (ls : list (@ldesc S)) scr :
+  scr_okb (map (fun l => nrows (ld_A l)) ls) scr = true -> scratch_wf (std_levels k ls) scr.
+Proof. intro H. apply scr_okb_ok. rewrite std_levels_sizes. exact H. Qed.
+End ScrCheck.
